@@ -756,7 +756,10 @@ def _sig_extra(c):
     if f == 'impose_at':
         return {'target': 'list' if isinstance(c['target'], list) else 'scalar'}
     if f == 'impose_as':
-        return {'offset': bool(c['offset']), 'mask': c.get('name', 'enumerated')}
+        d = {'offset': bool(c['offset']), 'mask': c.get('name', 'enumerated')}
+        if converging_unequal([tuple(p) for p in c['mask']]):
+            d['mask_shape'] = 'converging_chains_of_unequal_length'
+        return d
     if f == 'stat':
         return {'which': c['which']}
     if f in ('unique', 'reuse'):
@@ -1020,6 +1023,23 @@ def weight(c):
     if c.get('inputs') in ('reuse', 'pairs'):
         w = 1.0
     return w
+
+
+def converging_unequal(mask):
+    """is there an entry tracked through two pairs whose sources sit at different depths below their chain heads?
+    (e.g. [(0,1),(1,2),(3,2)]: entry 2 follows 1, which is one step below head 0, and 3, which is a head itself)"""
+    if cyclic_mask(mask):
+        return False
+    src = {}
+    for a, b in mask:
+        src.setdefault(b, set()).add(a)
+    memo = {}
+
+    def depth(v):
+        if v not in memo:
+            memo[v] = 0 if v not in src else 1 + max(depth(a) for a in src[v])
+        return memo[v]
+    return any(len(set(depth(a) for a in ss)) > 1 for ss in src.values())
 
 
 def cyclic_mask(mask):
